@@ -112,8 +112,13 @@ def mutate_path(rng, p, pm, other_pm, tpl, vals, vocab_vals):
     return rng.choice(["", "/", pm.root, pm.root.rstrip("/"), "relative/path", "C:\\x\\y", pm.root + "HAMLET", pm.root + "hamlet", "."]), "junk"
 
 
-def judge(rec, Sid, pm, p, c, cls):
+def judge(rec, Sid, pm, p, c, cls, pms=None):
     case = {"path": p, "config": c, "class": cls}
+    # (the snapshot root changes from run to run: the replay rebuilds the path from its part below the configured root)
+    for c2, pm2 in (pms or {c: pm}).items():
+        if p.startswith(pm2.root):
+            case["root_of"], case["below_root"] = c2, p[len(pm2.root):]
+            break
     rec.count("judged")
     try:
         r = Sid(path=p, config=c)
@@ -154,7 +159,10 @@ def worker(args):
     if "replay" in args:
         c = args["replay"]
         rec.ev()
-        judge(rec, Sid, pms[c["config"]], c["path"], c["config"], c.get("class", "replay"))
+        pth = c["path"]
+        if c.get("root_of") in pms:
+            pth = pms[c["root_of"]].root + c["below_root"]
+        judge(rec, Sid, pms[c["config"]], pth, c["config"], c.get("class", "replay"), pms)
         return rec.result()
     with_path = [t for t in model.templates if vocab.usable(t) and any(t.name in pm.templates for pm in pms.values())]
     for it in range(args["n"]):
@@ -187,11 +195,11 @@ def worker(args):
         rec.count("mut:" + cls)
         if m != p:
             rec.nt(m + "|" + c)
-        judge(rec, Sid, pm, m, c, cls)
+        judge(rec, Sid, pm, m, c, cls, pms)
         if rng.random() < 0.1:
             rec.ev()
             rec.count("mut:valid")
-            r = judge(rec, Sid, pm, p, c, "valid")
+            r = judge(rec, Sid, pm, p, c, "valid", pms)
         if it % 2999 == 0:
             rec.sample({"valid": p[len(pm.root):], "mutant": m[len(pm.root):] if m.startswith(pm.root) else m, "class": cls, "config": c})
     return rec.result()
